@@ -332,8 +332,8 @@ impl Interpreter {
                 state.stack.push(sum.to_signed_bytes_le());
             }
             OpCodes::OP_SUB => {
-                let a = state.stack.pop_bigint()?;
                 let b = state.stack.pop_bigint()?;
+                let a = state.stack.pop_bigint()?;
 
                 state.stack.push_bigint(a - b)?;
             }
@@ -344,14 +344,14 @@ impl Interpreter {
                 state.stack.push_bigint(a * b)?;
             }
             OpCodes::OP_DIV => {
-                let a = state.stack.pop_bigint()?;
                 let b = state.stack.pop_bigint()?;
+                let a = state.stack.pop_bigint()?;
 
                 state.stack.push_bigint(a / b)?;
             }
             OpCodes::OP_MOD => {
-                let a = state.stack.pop_bigint()?;
                 let b = state.stack.pop_bigint()?;
+                let a = state.stack.pop_bigint()?;
 
                 state.stack.push_bigint(a % b)?;
             }
@@ -398,26 +398,26 @@ impl Interpreter {
                 state.stack.push_bool(a != b)?;
             }
             OpCodes::OP_LESSTHAN => {
-                let a = state.stack.pop_bigint()?;
                 let b = state.stack.pop_bigint()?;
+                let a = state.stack.pop_bigint()?;
 
                 state.stack.push_bool(a < b)?;
             }
             OpCodes::OP_LESSTHANOREQUAL => {
-                let a = state.stack.pop_bigint()?;
                 let b = state.stack.pop_bigint()?;
+                let a = state.stack.pop_bigint()?;
 
                 state.stack.push_bool(a <= b)?;
             }
             OpCodes::OP_GREATERTHAN => {
-                let a = state.stack.pop_bigint()?;
                 let b = state.stack.pop_bigint()?;
+                let a = state.stack.pop_bigint()?;
 
                 state.stack.push_bool(a > b)?;
             }
             OpCodes::OP_GREATERTHANOREQUAL => {
-                let a = state.stack.pop_bigint()?;
                 let b = state.stack.pop_bigint()?;
+                let a = state.stack.pop_bigint()?;
 
                 state.stack.push_bool(a >= b)?;
             }
@@ -444,11 +444,11 @@ impl Interpreter {
                 state.stack.push_bigint(biggest)?;
             }
             OpCodes::OP_WITHIN => {
-                let x = state.stack.pop_bigint()?;
-                let min = state.stack.pop_bigint()?;
                 let max = state.stack.pop_bigint()?;
+                let min = state.stack.pop_bigint()?;
+                let x = state.stack.pop_bigint()?;
 
-                state.stack.push_bool(x >= min && x <= max)?;
+                state.stack.push_bool(x >= min && x < max)?;
             }
             OpCodes::OP_NUM2BIN => {
                 let length = state.stack.pop_number()?;
